@@ -456,6 +456,10 @@ func (b *BetweenExpr) SQL() string {
 
 func (s *SelectorExpr) SQL() string {
 	p := exprPrec(s)
+	// "1.x" would be lexed as a number glued to an identifier: keep an integer literal and the dot apart.
+	if _, ok := s.Expr.(*IntLiteral); ok {
+		return paren(p, s.Expr) + " ." + s.Ident.SQL()
+	}
 	return paren(p, s.Expr) + "." + s.Ident.SQL()
 }
 
